@@ -225,7 +225,10 @@ func Unpack(buf []byte, dotu bool) (fc *Fcall, fcsz int, err error) {
 	case Twstat:
 		fc.Fid, p = gint32(p)
 		_, p = gint16(p)
-		p, _ = gstat(p, &fc.Dir, dotu)
+		p, err = gstat(p, &fc.Dir, dotu)
+		if err != nil {
+			return nil, 0, err
+		}
 
 	case Rflush, Rclunk, Rremove, Rwstat:
 	}
